@@ -8,6 +8,7 @@ import (
 	"fmt"
 	"math"
 	"math/rand"
+	"path"
 	"strings"
 
 	pb "github.com/jamf/regatta/regattapb"
@@ -72,6 +73,7 @@ type request struct {
 	IsRaw    bool
 	Nested   bool // the violated rule sits inside a transaction
 	Where    string
+	Keep     bool // Tables.Create with an unusual name: do not drop the table right after an accepted creation
 }
 
 type genEnv struct {
@@ -345,7 +347,118 @@ var txnViolations = []string{"missing-table", "unknown-table",
 	"txn-nested-put-empty-key", "txn-nested-put-oversize-key", "txn-nested-put-oversize-value",
 	"txn-nested-range-negative-limit", "txn-nested-range-keysonly-countonly", "txn-empty-oneof"}
 
-func (e *genEnv) ghost(r *rand.Rand) []byte { return []byte(e.ghosts[r.Intn(len(e.ghosts))]) }
+// ghost draws the name of a table that does not exist: a plainly different name or, one time in
+// three, a path-like / look-alike spelling of a stable table's name.
+func (e *genEnv) ghost(r *rand.Rand) []byte {
+	if r.Intn(3) == 0 {
+		n := e.stable[r.Intn(len(e.stable))]
+		sp := aliasSpellings(n, e.stable[r.Intn(len(e.stable))])
+		return []byte(sp[r.Intn(len(sp))])
+	}
+	return []byte(e.ghosts[r.Intn(len(e.ghosts))])
+}
+
+// aliasSpellings: names that are NOT name but that a careless normalisation (path cleaning, URL
+// decoding, trimming, Unicode folding) would turn into it. The first coreAliases entries are the
+// path-like ones.
+func aliasSpellings(name, other string) []string {
+	return []string{
+		"./" + name, name + "/", name + "/.", "/" + name, "//" + name, other + "/../" + name, "../tables/" + name,
+		name + "/../" + name, name + "//", "./././" + name, other + "//..//" + name, "./" + name + "/",
+		// not path-like
+		"%2F" + name, name + "%2f", ".%2F" + name, name + " ", " " + name, name + "\t", name + "\u200b", "\ufeff" + name, strings.ToUpper(name[:1]) + name[1:],
+	}
+}
+
+const coreAliases = 12
+
+// aliasTarget names the existing table a path-like spelling cleans to ("" if none). Used to label
+// signatures only, never for a verdict.
+func aliasTarget(name string, w world) string {
+	if name == "" || !strings.ContainsAny(name, "/.") {
+		return ""
+	}
+	c := path.Join("/tables/", name)
+	if !strings.HasPrefix(c, "/tables/") {
+		return ""
+	}
+	t := strings.TrimPrefix(c, "/tables/")
+	if t != name && t != "" && !strings.Contains(t, "/") && w.tableExists(t) {
+		return t
+	}
+	return ""
+}
+
+// aliasKV builds the five key-value requests addressed to the (non-existing) table alias. The
+// writes would be clearly visible should they reach a real table.
+func aliasKV(alias string, follower bool) []*request {
+	t := []byte(alias)
+	all := []byte{0}
+	return []*request{
+		{Follower: follower, Method: mRange, Kind: "range-unknown-table", Msg: &pb.RangeRequest{Table: t, Key: all, RangeEnd: all}},
+		{Follower: follower, Method: mIterate, Kind: "iterate-range-unknown-table", Msg: &pb.RangeRequest{Table: t, Key: all, RangeEnd: all}},
+		{Follower: follower, Method: mPut, Kind: "put-unknown-table", Msg: &pb.PutRequest{Table: t, Key: []byte("alias-probe"), Value: []byte("x")}},
+		{Follower: follower, Method: mTxn, Kind: "txn-unknown-table", Msg: &pb.TxnRequest{Table: t, Success: []*pb.RequestOp{
+			{Request: &pb.RequestOp_RequestPut{RequestPut: &pb.RequestOp_Put{Key: []byte("alias-probe-txn"), Value: []byte("y")}}}}}},
+		{Follower: follower, Method: mTxn, Kind: "txn-unknown-table", Msg: &pb.TxnRequest{Table: t, Success: []*pb.RequestOp{
+			{Request: &pb.RequestOp_RequestRange{RequestRange: &pb.RequestOp_Range{Key: all, RangeEnd: all}}}}}},
+		{Follower: follower, Method: mDelete, Kind: "delete-range-unknown-table", Msg: &pb.DeleteRangeRequest{Table: t, Key: all, RangeEnd: all, Count: true}},
+	}
+}
+
+// aliasCases: the catalogue block about look-alike table names, for the tables that exist when
+// the catalogue starts (the stable ones).
+//   - lanes with a follower: every spelling of every table through every key-value method on the
+//     follower (local reads, forwarded writes), one table per spelling on the leader;
+//   - leader-only lanes: every spelling of every table on the leader, then the tables API:
+//     Tables.Delete of every spelling of every table and Tables.Create of the path-like ones.
+func (e *genEnv) aliasCases(withFollower bool) []*request {
+	var out []*request
+	for ti, t := range e.stable {
+		other := e.stable[(ti+1)%len(e.stable)]
+		for si, sp := range aliasSpellings(t, other) {
+			if withFollower {
+				out = append(out, aliasKV(sp, true)...)
+				if si%len(e.stable) == ti {
+					out = append(out, aliasKV(sp, false)...)
+				}
+			} else {
+				out = append(out, aliasKV(sp, false)...)
+			}
+		}
+	}
+	if withFollower {
+		return out
+	}
+	for ti, t := range e.stable {
+		other := e.stable[(ti+1)%len(e.stable)]
+		for _, sp := range aliasSpellings(t, other) {
+			out = append(out, &request{Method: mDropTable, Kind: "tables-delete-unknown-table", Msg: &pb.DeleteTableRequest{Name: sp}})
+		}
+	}
+	// creating a look-alike: whatever the answer, the existing table and the list must be what the
+	// model says; an accepted creation is a NEW table under exactly the name sent
+	for ti, t := range e.stable {
+		sps := aliasSpellings(t, e.stable[(ti+1)%len(e.stable)])
+		n := coreAliases
+		if ti > 0 {
+			n = 2
+		}
+		for si := 0; si < n; si++ {
+			sp := sps[(si+ti*4)%coreAliases]
+			// Keep: an accepted creation is not dropped right away; the write and the read that
+			// follow must then act on the NEW table only, and the deletion must remove only it.
+			// (Where the creation is refused, the three are requests to an unknown table.)
+			out = append(out,
+				&request{Method: mCreate, Kind: "probe:look-alike-table-name", Keep: true, Msg: &pb.CreateTableRequest{Name: sp}},
+				&request{Method: mPut, Kind: "look-alike-put", Msg: &pb.PutRequest{Table: []byte(sp), Key: []byte("after-create"), Value: []byte("z")}},
+				&request{Method: mRange, Kind: "look-alike-range", Msg: &pb.RangeRequest{Table: []byte(sp), Key: []byte{0}, RangeEnd: []byte{0}}},
+				&request{Method: mDropTable, Kind: "look-alike-delete", Msg: &pb.DeleteTableRequest{Name: sp}},
+			)
+		}
+	}
+	return out
+}
 
 func negLimit(r *rand.Rand) int64 {
 	return []int64{-1, -1, -2, -1 << 31, -1 << 63}[r.Intn(5)]
